@@ -62,3 +62,34 @@ Example c39_nonvacuous :
   open_or_write toy_pd (FFile (toy_pe pem_pub_type [1])) None false = (Ok (None, Some EPemType), None) /\
   open_or_write toy_pd (FFile (marshal_priv_pem toy_pe (repeat 5 64))) None false = (Ok (Some (repeat 5 64), None), None).
 Proof. split; [exact toy_law|]. repeat split; vm_compute; reflexivity. Qed.
+
+(* ---- cli/envelope.go loadPrivKeys / loadPubKeys over any list of key paths ---- *)
+
+(* the result is an error or one usable key per path (same length, none nil); never a panic *)
+Theorem c39_load_priv_keys : forall pd ps, pem_bytes pd -> Forall gen_ok ps ->
+  load_priv_keys pd ps <> Panic /\
+  forall ks, load_priv_keys pd ps = Ok ks ->
+    length ks = length ps /\ Forall (fun k => exists key id, k = Some key /\ id_of_priv key = Ok id) ks.
+Proof. exact load_priv_keys_sound. Qed.
+Print Assumptions c39_load_priv_keys.
+
+(* a path that is empty / garbage / of the wrong PEM type / unreadable / a directory / missing and
+   not writable, anywhere in the list, makes the whole call an error (no keys are silently dropped) *)
+Theorem c39_load_priv_keys_bad : forall pd ps, pem_bytes pd -> Forall gen_ok ps -> Exists (bad_path pd) ps ->
+  exists e, load_priv_keys pd ps = Err e.
+Proof. exact load_priv_keys_bad. Qed.
+Print Assumptions c39_load_priv_keys_bad.
+
+Theorem c39_load_pub_keys : forall pd ps, pem_bytes pd -> Forall gen_ok ps ->
+  load_pub_keys pd ps <> Panic /\ forall ks, load_pub_keys pd ps = Ok ks -> length ks = length ps.
+Proof. exact load_pub_keys_sound. Qed.
+Print Assumptions c39_load_pub_keys.
+
+Example c39_load_nonvacuous :
+  bad_path toy_pd (FFile [], None, false) /\ gen_ok (FFile [], None, false) /\
+  load_priv_keys toy_pd [(FFile (marshal_priv_pem toy_pe (repeat 5 64)), None, false); (FFile [32; 10], None, false)] = Err ELoad /\
+  load_priv_keys toy_pd [(FFile (marshal_priv_pem toy_pe (repeat 5 64)), None, false); (FMissing, Some (repeat 6 64), true)]
+    = Ok [Some (repeat 5 64); Some (repeat 6 64)].
+Proof.
+  split; [intros k; vm_compute; discriminate|]. split; [intros k H; discriminate|]. split; vm_compute; reflexivity.
+Qed.
